@@ -100,6 +100,9 @@ impl Drop for Machine {
             o.traced.lock().unwrap().clear();
             o.owned.lock().unwrap().clear();
         }
+        // the clean-up collection above must not be charged to the next machine's cost counters
+        // (a machine is dropped either before the next one exists or right after it was created)
+        verif::reset_trace_counters();
     }
 }
 
